@@ -416,6 +416,7 @@ fn run(line: &str) -> String {
         let nudge = ThreadSpec { name: "zz".into(), ops: vec!["ci".into()], labels: vec![], n1: 0, n2: 0 };
         let t0 = Instant::now();
         let mut last_nudge = Instant::now();
+        let mut stable: Option<(usize, Instant)> = None;
         loop {
             let ok = pace.drained()
                 && verif::with_inst(port, |i| {
@@ -433,10 +434,41 @@ fn run(line: &str) -> String {
                         let (n, full) = i.written.get(&tok).cloned().unwrap_or((0, true));
                         full && c.buf.lock().unwrap().len() == n
                     }) && i.plan.is_empty()
+                        && {
+                            // not in the middle of a fan-out: the last WakeBegin with a non-empty
+                            // batch has reached its WakeEnd
+                            let mut mid = false;
+                            for e in i.log.iter().rev() {
+                                match e {
+                                    Ev::WakeEnd => break,
+                                    Ev::Batch { frames } => {
+                                        mid = !frames.is_empty();
+                                        break;
+                                    }
+                                    Ev::WakeBegin => {
+                                        mid = true;
+                                        break;
+                                    }
+                                    _ => {}
+                                }
+                            }
+                            !mid
+                        }
                 });
+            let loglen = verif::with_inst(port, |i| i.log.len());
             if ok {
-                break;
+                match stable {
+                    Some((l, t)) if l == loglen => {
+                        if Instant::now().duration_since(t) > Duration::from_millis(3) {
+                            break;
+                        }
+                    }
+                    _ => stable = Some((loglen, Instant::now())),
+                }
+                std::thread::sleep(Duration::from_micros(300));
+                continue;
             }
+            stable = None;
             if t0.elapsed() > Duration::from_millis(3000) || dead(port) {
                 quiet = false;
                 break;
